@@ -1,15 +1,15 @@
 package harness
 
 import (
-	"strings"
-	"sync/atomic"
-	"time"
 	"bufio"
 	"encoding/json"
 	"flag"
 	"fmt"
 	"os"
+	"strings"
+	"sync/atomic"
 	"testing"
+	"time"
 )
 
 var (
@@ -24,20 +24,22 @@ var (
 	flagReplays  = flag.String("sim.replays", "/verif/replays", "driver: directory for replay files")
 	flagBudget   = flag.Duration("sim.budget", 0, "driver: wall budget for exploration")
 	flagChunk    = flag.Int("sim.chunk", 25, "driver: runs per worker process")
-	flagJob    = flag.String("sim.job", "", "worker: job file (JSON)")
-	flagOut    = flag.String("sim.out", "", "worker: output file (JSON lines)")
-	flagReplay = flag.String("sim.replay", "", "replay file")
-	flagLog    = flag.Bool("sim.log", false, "include the event log in records")
+	flagAlso     = flag.String("sim.also", "", "driver (development): also report violations of these properties")
+	flagBase     = flag.Uint64("sim.base", 0, "driver (development): first run seed")
+	flagJob      = flag.String("sim.job", "", "worker: job file (JSON)")
+	flagOut      = flag.String("sim.out", "", "worker: output file (JSON lines)")
+	flagReplay   = flag.String("sim.replay", "", "replay file")
+	flagLog      = flag.Bool("sim.log", false, "include the event log in records")
 )
 
 // Job is what the driver hands a worker process.
 type Job struct {
-	Property string  `json:"property"`
-	Tier     string  `json:"tier"`
+	Property string   `json:"property"`
+	Tier     string   `json:"tier"`
 	Seeds    []uint64 `json:"seeds,omitempty"`
-	Plans    []*Plan `json:"plans,omitempty"`
-	WantLog  bool    `json:"want_log,omitempty"`
-	WantPlan bool    `json:"want_plan,omitempty"`
+	Plans    []*Plan  `json:"plans,omitempty"`
+	WantLog  bool     `json:"want_log,omitempty"`
+	WantPlan bool     `json:"want_plan,omitempty"`
 }
 
 func TestWorker(t *testing.T) {
@@ -126,7 +128,7 @@ func TestMain(m *testing.M) {
 	if *flagDrive != "" {
 		bin, _ := os.Executable()
 		o := &DriveOpts{Property: *flagDrive, Tier: *flagTier, Seed: *flagSeed, Runs: *flagRuns, Workers: *flagWorkers, Scratch: *flagScratch,
-			Binary: bin, Evidence: *flagEvidence, Known: *flagKnown, Replays: *flagReplays, Budget: *flagBudget, ChunkSize: *flagChunk, JobTimeout: 15 * time.Minute}
+			Binary: bin, Evidence: *flagEvidence, Known: *flagKnown, Replays: *flagReplays, Also: *flagAlso, Base: *flagBase, Budget: *flagBudget, ChunkSize: *flagChunk, JobTimeout: 15 * time.Minute}
 		os.Exit(Drive(o))
 	}
 	if *flagReplay != "" {
